@@ -13,7 +13,7 @@ from ..astutil import unparse, dotted, walk_no_nested
 from ..callgraph import CallGraph
 from ..prov import Prov, coarse
 from ..pathwalk import show, is_const, C
-from ..hwalk import function_paths, all_values
+from ..hwalk import function_paths, all_values, normalise, identity_decorator
 from ..symeval import SymEval, Undecided, LookupFailed, Lin, STRUCT_STANDARD, breakpoints
 from .. import oracle, docs, codecchain as CC
 from ..immsites import find_all, contains, ctor_fields
@@ -114,23 +114,6 @@ class Model:
 def strip_res(v):
     while isinstance(v, tuple) and v and v[0] == 'res':
         v = v[3]
-    return v
-
-
-def normalise(facts, v):
-    """Rewrite <Cls(args...)>.attr to the constructor argument stored in that attribute (a freshly built object's field is the value
-    it was built from), and drop result wrappers."""
-    if not isinstance(v, tuple) or not v:
-        return v
-    if v[0] == 'res':
-        return normalise(facts, v[3])
-    v = tuple(normalise(facts, x) if isinstance(x, tuple) else x for x in v)
-    if v[0] == 'attr' and isinstance(v[1], tuple) and v[1] and v[1][0] == 'new' and v[1][1] in facts.classes:
-        order = dict(facts.full_attr_order(v[1][1]))
-        param = order.get(v[2])
-        fields = ctor_fields(facts, v[1])
-        if param in fields:
-            return fields[param]
     return v
 
 
@@ -398,6 +381,7 @@ def check_strings(rep, model):
                 raise AnalysisError('lex_tokens: the text of a string token is {}: not a codec chain applied to the selected source text'.format(show(t[1][1])[:120]))
             if CC.well_typed(ops, 'str') != 'str':
                 raise AnalysisError('lex_tokens: {} does not turn text into text'.format(CC.describe(ops)))
+            check_selected_text(rep, facts, p, base, node)
             bad = CC.check_chain(ops, CC.CLASSES, lambda s: s[1])
             rep.check(not bad, 'R10.4.escape-codec', 'string text: escape processing text{} denotes the right character for every class of source text'.format(CC.describe(ops)),
                       lambda bad=bad, ops=ops, node=node: Finding(
@@ -408,6 +392,74 @@ def check_strings(rep, model):
                               CC.describe(ops), bad[0][0], bad[0][1], bad[0][3], bad[0][2],
                               '; also wrong for: ' + ', '.join(b[0] for b in bad[1:4]) if len(bad) > 1 else ''), line=getattr(node, 'lineno', None)))
     rep.analysed['string escape sites'] = sites
+
+
+# (line as read, the text of its string directive): optional leading blanks, the keyword, ONE blank, then everything up to the end
+# of the line - blanks, tabs, quotes, '#' included
+STRING_LINES = [('string abc', 'abc'), ('string  abc  ', ' abc  '), ('  string a\tb\t ', 'a\tb\t '), ('string a # b', 'a # b'), ('\tstring x ', 'x '),
+                ('string "q" ', '"q" '), ('string a,b (c)', 'a,b (c)'), ('string ', '')]
+
+
+def free_leaves(facts, v, out=None):
+    """The symbols a value depends on that are not constants of the module: parameters, their attributes, loop items."""
+    out = [] if out is None else out
+    if not isinstance(v, tuple) or not v:
+        return out
+    if not isinstance(v[0], str):
+        for x in v:
+            free_leaves(facts, x, out)
+        return out
+    if v[0] == 'const':
+        return out
+    if v[0] in ('havoc', 'item', 'var', 'lv') or (v[0] == 'attr' and v[1][0] in ('name', 'havoc', 'item') and not (v[1][0] == 'name' and v[1][1] in facts.classes)):
+        if v[0] == 'attr' and v[1][0] == 'name' and (v[1][1] in facts.assign_nodes or v[1][1] in ('re', 'os', 'codecs', 'struct')):
+            return out
+        if v not in out:
+            out.append(v)
+        return out
+    if v[0] == 'name':
+        if v[1] not in facts.assign_nodes and v[1] not in facts.funcs and v[1] not in facts.classes and v[1] not in ('re', 'os', 'codecs', 'struct', 'str', 'int', 'bytes', 'None', 'True', 'False'):
+            if v not in out:
+                out.append(v)
+        return out
+    for x in v[1:]:
+        if isinstance(x, tuple):
+            free_leaves(facts, x, out)
+    return out
+
+
+def check_selected_text(rep, facts, path, base, node):
+    """R10.4.text: the text of a string directive is everything after `string ` on the line as read.  The expression that selects
+    it (regular expression, slicing, splitting ...) is evaluated on sample lines with the library's own str / re semantics."""
+    b = normalise(facts, base)
+    leaves = free_leaves(facts, b)
+    if len(leaves) != 1:
+        raise AnalysisError('lex_tokens: the text of a string token is selected from {} ({} inputs): not understood'.format(show(b)[:100], len(leaves)))
+    leaf = leaves[0]
+    conds = [(normalise(facts, t), pol, n) for t, pol, n in path.conds]
+    n_ok = 0
+    for line, want in STRING_LINES:
+        ev = SymEval(facts, {leaf: line})
+        try:
+            feasible_here = True
+            for t, pol, _ in conds:
+                if contains(t, leaf) and bool(ev.ev(t)) != pol:
+                    feasible_here = False
+                    break
+            if not feasible_here:
+                continue
+            got = ev.ev(b)
+        except Undecided as e:
+            raise AnalysisError('lex_tokens: selecting the text of a string token from the line {!r} cannot be evaluated: {}'.format(line, e))
+        n_ok += 1
+        if got != want:
+            rep.fail(Finding('R10.4.text', 'lex_tokens', node, 'for the line {!r} the text of the string directive is taken to be {!r} instead of {!r}: the text is everything '
+                             'after `string ` on the line as read (blanks and tabs at the end are data)'.format(line, got, want), line=getattr(node, 'lineno', None)),
+                     instance='text of {!r}'.format(line))
+            return
+    if not n_ok:
+        raise AnalysisError('lex_tokens: no sample line reaches the string token on the path [{}]'.format(path.cond_text()[-80:]))
+    rep.ok('R10.4.text', 'string text = everything after `string ` as read [{}] ({} sample lines)'.format(path.cond_text()[-40:], n_ok))
 
 
 def size_mismatch(size_ops, emit_ops):
@@ -472,8 +524,23 @@ def check_include_bytes(rep, model):
         handlers |= pv.reach(u, dynamic=False)
     n = 0
     unclear = []
+    MEMO = {'lru_cache', 'functools.lru_cache', 'cache', 'functools.cache', 'cached_property', 'functools.cached_property'}
+    PLAIN = {'staticmethod', 'classmethod'}
     for q, node, name, arg in pv.sinks(reach):
         if q in handlers or name == 'os.path.getsize':
+            # R10.5.fresh-read: the bytes are read from the located file when the item is resolved, not taken from a cache that
+            # outlives the call (every function between the item and the filesystem call is looked at)
+            for h in sorted(handlers):
+                if q not in pv.reach(h, dynamic=False):
+                    continue
+                for d in cg.funcs[h].decorator_list:
+                    dn = dotted(d.func) if isinstance(d, ast.Call) else dotted(d)
+                    if dn in MEMO:
+                        rep.fail(Finding('R10.5.fresh-read', h, cg.funcs[h], '{}() reaches {}({}) but is memoised with @{}: the content of an include_bytes file is read once per '
+                                         'process, a later assemble() of a changed file emits stale bytes (and its size check compares against the old content)'.format(
+                                             h, name, unparse(arg), dn), line=cg.funcs[h].lineno), instance=h)
+                    elif dn not in PLAIN and not (not isinstance(d, ast.Call) and identity_decorator(facts, dn)):
+                        unclear.append('{}: decorator @{} on the way to {}({}) is not understood'.format(h, dn, name, unparse(arg)))
             n += 1
             ks = set(pv.kinds(arg, q)) - {'NoneK'}
             # a violation is text of the source line (or a literal) reaching the filesystem; any other mixture of kinds is an
